@@ -222,3 +222,39 @@ Example C19_chr_runs_somewhere :
   exists c', crun_in demo_prog 45 c0 = Some c' /\ cr c' 1 = 16385 /\ cpc c' = 777 /\
              map (mem_read (cmem c')) (16384 :: 16385 :: 16386 :: nil) = (16387 :: 1 :: 65 :: nil) /\ cr c' 15 = 100.
 Proof. exact chr_runs_somewhere. Qed.
+
+(* ---- the stack-convention chr: two frames on the stack, the stack malloc as callee --------------------------- *)
+From Hera.Proofs Require Import C19_ChrStack.
+
+(* for a stack that does not wrap and lies on one side of the heap, with FP + 4 <= SP (what the calling sequence of a
+   one-argument function guarantees): chr(c) stores in its result cell FP+3 the address of a fresh two-cell allocator
+   block holding [1; c] (the allocator advances by exactly 2), restores R1, R2, FP, SP, keeps R3..R10, returns to its
+   caller, and writes nothing but the heap pointer, the block, its own frame FP..FP+5 and malloc's frame SP+2..SP+8 *)
+Theorem C19_chr_stack_contract : forall prog cbase mbase s p q,
+  contains prog cbase (chr_stack_code mbase) -> contains prog mbase (malloc_stack_code mbase) ->
+  (forall a i, prog a = Some i -> valid_instr i = true) ->
+  0 <= cbase -> cbase + 26 < 65536 -> 0 <= mbase -> mbase + 41 < 65536 ->
+  List.length (regs s) = 16%nat -> pc s = cbase -> getreg s 0 = 0 ->
+  word (getreg s 1) -> word (getreg s 2) -> word (getreg s 3) -> word (getreg s 12) -> word (getreg s 13) ->
+  0 <= getreg s 14 -> getreg s 14 + 4 <= getreg s 15 -> getreg s 15 + 10 < 65536 ->
+  (getreg s 15 + 8 < heap_cell \/ heap_end <= getreg s 14) ->
+  wf_mem (mem s) -> heap_ok (mem_read (mem s) heap_cell) ->
+  alloc (mem_read (mem s) heap_cell) 2 = Some (p, q) ->
+  exists n s', run_in prog n s = Some s' /\
+    mem_read (mem s') (getreg s 14 + 3) = p /\ mem_read (mem s') p = 1 /\
+    mem_read (mem s') (p + 1) = mem_read (mem s) (getreg s 14 + 3) /\ mem_read (mem s') heap_cell = q /\
+    getreg s' 1 = getreg s 1 /\ getreg s' 2 = getreg s 2 /\ pc s' = getreg s 13 /\
+    getreg s' 14 = getreg s 12 /\ getreg s' 15 = getreg s 15 /\
+    (forall j, 3 <= j <= 10 -> getreg s' j = getreg s j) /\
+    (forall b, 0 <= b < 65536 -> b <> heap_cell -> b <> p -> b <> p + 1 ->
+       ~ (getreg s 14 <= b <= getreg s 14 + 5) -> ~ (getreg s 15 + 2 <= b <= getreg s 15 + 8) ->
+       mem_read (mem s') b = mem_read (mem s) b).
+Proof. exact chr_stack_contract. Qed.
+Print Assumptions C19_chr_stack_contract.
+
+Example C19_chr_stack_runs_somewhere :
+  let c0 := mkcore (fun j => if j =? 13 then 777 else if j =? 15 then 104 else if j =? 14 then 100 else if j =? 1 then 11 else 0)
+                   (mem_write (mkmem 0 nil) 103 65) 36 false false false false true in
+  exists c', crun_in demo_stack_prog 63 c0 = Some c' /\ cpc c' = 777 /\ cr c' 1 = 11 /\ cr c' 15 = 104 /\
+             map (mem_read (cmem c')) (103 :: 16384 :: 16385 :: 16386 :: nil) = (16385 :: 16387 :: 1 :: 65 :: nil).
+Proof. exact chr_stack_runs_somewhere. Qed.
